@@ -140,7 +140,8 @@ func genCarrier(t *rapid.T, allowBefore bool) ref.Carrier {
 	case 0, 1:
 		c.Pointer = 0
 	case 2:
-		c.Pointer = rapid.SampledFrom([]int{1, 2, 3, 120, 182, 183, 184}).Draw(t, "ptr-b")
+		// up to what the 8-bit field can say (more than fits in one packet: only meaningful for the payload-level API)
+		c.Pointer = rapid.SampledFrom([]int{1, 2, 3, 120, 182, 183, 184, 185, 200, 254, 255}).Draw(t, "ptr-b")
 	default:
 		c.Pointer = rapid.IntRange(0, 120).Draw(t, "ptr")
 	}
